@@ -54,6 +54,12 @@ static const CpuList *get_cpu_info(AsmContext *asm_context)
 int file_write(const char *filename, AsmContext *asm_context, int file_type)
 {
   const CpuList *cpu_info = get_cpu_info(asm_context);
+
+#ifdef NAKEN_ASM_VERIF
+  naken_asm_verif_stale_count =
+    asm_context->memory.verif_count_pass1(&naken_asm_verif_stale_first);
+#endif
+
   FILE *out = fopen(filename, "wb");
 
   if (out == NULL) { return -1; }
